@@ -16,18 +16,20 @@ def fn_queries(tier, prop):
     qs = []
     for ch in ('char', 'char16_t', 'char32_t'):
         nm = _c05.names(ch)
-        for L in range(1, N + 1):
+        for L in range(1, N + 2):
+            only_steer = (L == N + 1)             # one size beyond the tier's bound, steering twin of the object production only (room for  "":1} )
+            if only_steer and (tier != 'quick' or ch != 'char'): continue
             if ch != 'char' and (tier == 'quick' and L != N - 1 or tier != 'quick' and L > 4): continue
             b = {'TrimLeft|parseArray|parseObject|skip_ws|lit|vf_buf.*|h_.*_fn': L + 2, 'parseValue': 6, 'Insert': 4, 'Array|HArray|Value|ShapeChild|value_stub|fn_.*|String': 4}
             d = {'L': L, 'CHAR': ch}
             def Q(entry, stubs):
                 qs.append(Query('%s/%s/%s/L%d' % (prop, entry, ch, L), 'C07_json_fn.cpp', entry, d, bounds=b, stubs=stubs, cflags=['-Dprotected=public'], timeout=900,
                                 replay=('C05_lift.cpp', {'h_top_fn': 'lift_top_fn', 'h_value_fn': 'lift_value_fn', 'h_array_fn': 'lift_array_fn', 'h_object_fn': 'lift_object_fn'}[entry])))
-            Q('h_top_fn', {nm['parseValue']: 'fn_parseValue'})
-            Q('h_value_fn', {nm['parseObject']: 'fn_container', nm['parseArray']: 'fn_container', nm['UnEscape']: 'fn_unescape', nm['stringToNumber']: 'fn_strtonum'})
-            Q('h_array_fn', {nm['parseValue']: 'fn_parseValue'})
-            Q('h_object_fn', {nm['parseValue']: 'fn_parseValue', nm['UnEscape']: 'fn_unescape'})
-            if ch == 'char' and L in ((4,) if tier == 'quick' else (3, 4, 5, 6)):
+            if not only_steer: Q('h_top_fn', {nm['parseValue']: 'fn_parseValue'})
+            if not only_steer: Q('h_value_fn', {nm['parseObject']: 'fn_container', nm['parseArray']: 'fn_container', nm['UnEscape']: 'fn_unescape', nm['stringToNumber']: 'fn_strtonum'})
+            if not only_steer: Q('h_array_fn', {nm['parseValue']: 'fn_parseValue'})
+            if not only_steer: Q('h_object_fn', {nm['parseValue']: 'fn_parseValue', nm['UnEscape']: 'fn_unescape'})
+            if ch == 'char' and L in ((4, 5) if tier == 'quick' else (3, 4, 5, 6)):
                 # steering twins: same harness restricted to "failed with the cursor left on a closer/comma" - vacuous (witness unreachable)
                 # on a correct tree, and on a broken one they yield counterexamples that lift to an accepted malformed document
                 # STEER=1: callee results restricted to REAL tokens (one digit / the key k"), same assertions: any counterexample lifts to a real document;
@@ -36,6 +38,7 @@ def fn_queries(tier, prop):
                                      ('h_top_fn', {nm['parseValue']: 'fn_parseValue'})):
                     for st in (1, 2):
                         if st == 2 and entry == 'h_top_fn': continue
+                        if tier == 'quick' and L == 5 and not (entry == 'h_object_fn' and st == 1): continue   # L=5: room for  "":1}
                         d2 = dict(d); d2['STEER'] = st
                         qs.append(Query('%s/%s/%s/L%d/steer%d' % (prop, entry, ch, L, st), 'C07_json_fn.cpp', entry, d2, bounds=b, stubs=stubs, cflags=['-Dprotected=public'], timeout=900,
                                         replay=('C05_lift.cpp', {'h_array_fn': 'lift_array_fn', 'h_object_fn': 'lift_object_fn', 'h_top_fn': 'lift_top_fn'}[entry]), vacuous_ok=(st == 2)))
